@@ -22,6 +22,8 @@ pub struct ProcSpec {
     pub stdin_file: Option<String>,
     /// do not re-run a timed-out case with a doubled budget
     pub no_confirm: bool,
+    /// keep at most this many bytes of stdout / stderr (0 = the defaults, 8 MiB / 1 MiB)
+    pub cap_output: usize,
 }
 
 #[derive(Clone, Debug, Default)]
@@ -125,8 +127,12 @@ pub fn hermetic_env(home: &Path) -> Vec<(String, String)> {
 }
 
 fn read_cap(p: &Path, cap: usize) -> Vec<u8> {
-    let mut v = std::fs::read(p).unwrap_or_default();
-    v.truncate(cap);
+    use std::io::Read as _;
+    let mut v = Vec::new();
+    if let Ok(f) = std::fs::File::open(p) {
+        let _ = f.take(cap as u64).read_to_end(&mut v);
+    }
+    v.shrink_to_fit();
     v
 }
 
@@ -198,8 +204,8 @@ pub fn run_one(spec: &ProcSpec, dir: &Path) -> ProcOut {
     let mut out = ProcOut {
         status: status.code().unwrap_or_else(|| 128 + status.signal().unwrap_or(0)),
         signal: status.signal(),
-        stdout: read_cap(&outp, 8 << 20),
-        stderr: read_cap(&errp, 1 << 20),
+        stdout: read_cap(&outp, if spec.cap_output > 0 { spec.cap_output } else { 8 << 20 }),
+        stderr: read_cap(&errp, if spec.cap_output > 0 { spec.cap_output } else { 1 << 20 }),
         timed_out,
         wall_ms: start.elapsed().as_millis() as u64,
         files: vec![],
